@@ -462,12 +462,62 @@ pub fn stress(x: &X) -> X {
     X::L(vec![X::N(anomalies), X::N(total), X::N(wrong)])
 }
 
+/// neg.stream: (L (L [accept-encoding]) (N with_len)) -> (L (N status) (N future kept) (L [content-encoding]) (N body len))
+/// a handler whose response carries a future (a streaming response): handle_cache never exchanges it for a 406
+pub fn stream(x: &X) -> X {
+    let l = match x.as_l() {
+        Some(l) if l.len() == 2 => l,
+        _ => return X::bad(),
+    };
+    let (ae, with_len) = match (l[0].as_opt(), l[1].as_bool()) {
+        (Some(ae), Some(w)) => (ae, w),
+        _ => return X::bad(),
+    };
+    let hdrs = match header_list(ae, &[]) {
+        Some(h) => h,
+        None => return X::bad(),
+    };
+    let cfg = X::L(vec![X::L(vec![X::b("cache"), X::bool(true)]), X::L(vec![X::b("disable_ims"), X::bool(true)])]);
+    let customize = move |_kv: &[(String, X)], host: &mut Host, _sh: &Arc<Shared>| {
+        host.extensions.add_prepare_single(
+            "/s",
+            prepare!(_req, _host, _path, _addr, move |with_len: bool| {
+                let resp = Response::builder().status(200).header("content-type", "text/html").body(Bytes::from_static(b"head of the stream")).unwrap();
+                let fut = response_pipe_fut!(_pipe, _host, {});
+                let r = FatResponse::new(resp, comprash::ServerCachePreference::None);
+                if *with_len {
+                    r.with_future_and_len(fut, 18)
+                } else {
+                    r.with_future(fut)
+                }
+            }),
+        );
+    };
+    let built = match c00pipe::build_host(&cfg, Some(&customize)) {
+        Some(b) => b,
+        None => return X::bad(),
+    };
+    let res = c00pipe::block_on(async {
+        let host = built.hosts.get_host(&built.host_name)?;
+        let mut q = c00pipe::make_request(&built.host_name, b"GET", b"/s", &hdrs, b"")?;
+        let r = kvarn::handle_cache(&mut q, c00pipe::sockaddr(1), host).await;
+        Some(X::L(vec![
+            X::n(r.response.status().as_u16()),
+            X::bool(r.future.is_some()),
+            X::opt(r.response.headers().get("content-encoding").map(|v| X::b(v.as_bytes()))),
+            X::n(r.response.body().len()),
+        ]))
+    });
+    res.unwrap_or_else(X::bad)
+}
+
 pub fn dispatch(comp: &str, x: &X) -> Option<X> {
     Some(match comp {
         "neg.list_header" => crate::guarded(|| list_header(x)),
         "neg.mime" => crate::guarded(|| mime(x)),
         "neg.pipe" => crate::guarded(|| pipe(x)),
         "neg.stress" => crate::guarded(|| stress(x)),
+        "neg.stream" => crate::guarded(|| stream(x)),
         _ => return None,
     })
 }
